@@ -189,6 +189,10 @@ KEYMAPS = [
     ('raw', dict()), ('raw', dict(typed=True)), ('raw', dict(sentinel=True)), ('raw', dict(flat=False)), ('raw', dict(flat=False, typed=True)),
     ('string', dict()), ('string', dict(typed=True)), ('string', dict(flat=False)), ('string', dict(sentinel=True, typed=True)),
     ('pickle', dict()), ('pickle', dict(flat=False, typed=True)), ('md5', dict()), ('md5', dict(typed=True, sentinel=True)), ('sha1', dict(flat=False)),
+    # chained keymaps `inner + outer` (the options outside `_inner` are the OUTER keymap's, which builds the first structured key)
+    ('chain', dict(typed=True, _outer_kind='md5', _inner=['string', {}])),
+    ('chain', dict(typed=True, sentinel=True, _outer_kind='string', _inner=['pickle', {'typed': True}])),
+    ('chain', dict(typed=True, _outer_kind='sha1', _inner=['raw', {'sentinel': True}])),
 ]
 
 
@@ -196,6 +200,10 @@ def make_km(kind, opts):
     from klepto.keymaps import keymap, stringmap, picklemap, hashmap, SENTINEL
     o = dict(opts)
     if o.pop('sentinel', False): o['sentinel'] = SENTINEL
+    if kind == 'chain':
+        inner = make_km(*o.pop('_inner')); outer_kind = o.pop('_outer_kind')
+        if opts.get('sentinel'): o['sentinel'] = True
+        return inner + make_km(outer_kind, {k: v for k, v in opts.items() if not k.startswith('_')})
     if kind == 'raw': return keymap(**o)
     if kind == 'string': return stringmap(**o)
     if kind == 'pickle': return picklemap(**o)
